@@ -243,7 +243,9 @@ class FrameAccounting:
 
     def decode(self, data: bytes, max_frame: int = 16384) -> "FrameAccounting":
         dec = hpack.Decoder()
-        dec.max_allowed_table_size = 65536
+        # an observer: whatever table size the peers agreed on (SETTINGS the observer may not
+        # have seen as such, e.g. inside a mutated HTTP2-Settings header) is accepted
+        dec.max_allowed_table_size = 1 << 62
         pos = 0
         cont: Optional[Tuple[int, bytearray, bool, Optional[int]]] = None
         while pos + 9 <= len(data):
